@@ -44,6 +44,9 @@ ErrName     == -32            \* NameError / AttributeError
 ErrType     == -33            \* TypeError (wrong kind of object, bad arity)
 ErrDeleted  == -34            \* DeletedObjectError (a reference to a deleted object was used)
 IsErr(v)    == v <= -10
+\* raise ops 8..15 raise a BaseException that is not an Exception (GeneratorExit):
+\* `except Exception` handlers inside formulas do not catch those
+Catchable(v) == IsErr(v) /\ ~(v <= -18 /\ v >= -25)
 NoneContrib == 7              \* what a None callee adds to its caller's sum
 Fail        == <<>>          \* "no result" for operators whose results are non-empty sequences
 MFail       == <<<<>>>>      \* Merge failure (a sequence holding the empty path)
@@ -379,7 +382,7 @@ Den(D, n) ==
         rec == CellRecOf(D, ctx, n[3]) IN
     IF rec.cached /\ n \in DOMAIN D.inp THEN D.inp[n]
     ELSE LET raw == EvOps(D, ctx, n[4], FRec(D, rec).ops, 1, 0)
-             r1  == IF IsErr(raw) /\ FRec(D, rec).catch THEN FRec(D, rec).onerr ELSE raw IN
+             r1  == IF Catchable(raw) /\ FRec(D, rec).catch THEN FRec(D, rec).onerr ELSE raw IN
          IF r1 = NoneV /\ ~AllowNone(D, ctx, n[3]) THEN ErrNone ELSE r1
 
 NodeExists(D, n) ==
